@@ -8,7 +8,7 @@ package contract
 
 import "github.com/emitter-io/emitter/internal/security"
 
-//@ verify (*contract).Validate pre=pre_Validate post=post_Validate props=C03,C12
+// @ verify (*contract).Validate pre=pre_Validate post=post_Validate props=C03,C12
 func pre_Validate(c *contract, key security.Key) bool { return c != nil && len(key) == 24 }
 func post_Validate(c *contract, key security.Key, res0 bool) bool {
 	master := uint16(key[2])<<8 | uint16(key[3])
